@@ -305,3 +305,14 @@ class Shift(Contract):
         sh = lambda src, dst, k: z3.ForAll([q], z3.Implies(z3.And(0 <= q, q < D), dst[q] == z3.If(z3.And(0 <= q - k, q - k < D), src[q - k], z3.RealVal(0))))
         hyps = [sh(x, y, s), sh(y, z, -s), 0 <= j, j < D, 0 <= j + s, j + s < D]
         return [('shift(s) then shift(-s) restores every coefficient j with 0 <= j + s < D', hyps, z[j] == x[j], ())]
+
+
+@register
+class Abs(Contract):
+    """abs(x): every coefficient multiplied by the sign of the zeroth one (|x| away from the kink x0 = 0), a new object"""
+    file = 'algopy/utpm/utpm.py'; qual = 'UTPM.__abs__'; objs = ('self',); arrays = ('self.data',); modifies = (); returns = 'any'
+    cfgs = {'distinct': {}}; property_ids = ('C01', 'C14', 'C12')
+    def fvalue(self, c, j): x = c.pre['self.data']; return z3.If(x[0] < 0, -x[j], x[j])
+    def ensures(self, c):
+        r = c.retdata(); fresh = c.ret.attrs['data'].base != c._names['self.data']
+        return [('result.data[d] = sign(x[0]) x[d]', c.forall(0, c.D, lambda j: r[j] == self.fvalue(c, j))), ('result is a new object', z3.BoolVal(bool(fresh)))]
